@@ -373,7 +373,7 @@ scan continues with the NEXT sibling; the child is not tried again with another 
 theorem matchFrom_give_up (env : Env) (ic : Interceptors) (c : Node) (cs : List Node) (path : Bytes) (ps : Params)
     {cap rest : Bytes} {ps2 : Params} (hm : c.seg.match env ic path = .yes cap rest)
     (hsub : c.matchChildren env ic rest (c.seg.record cap ps) = .miss ps2) :
-    matchFrom env ic (c :: cs) 0 path ps = matchFrom env ic cs 0 path (ps2.erase c.seg.name) := by
+    matchFrom env ic (c :: cs) 0 path ps = matchFrom env ic cs 0 path (restoreParam ps ps2 c.seg.name) := by
   rw [matchFrom_cons_zero]
   unfold tryChild
   rw [hm]
